@@ -610,3 +610,44 @@ def check(ctx, res) -> None:
                                "model_obs": mo.get(i)})
     res.model_cases += len(cases)
     res.traces_validated += len(cases) - len(bad)
+
+
+
+def check_subscribers(ctx, res) -> None:
+    """C17 on the prefetching consumers: with subscribers of the consume signals that take loop iterations (the only thing that
+    makes the wrapper's hand-over window wider than one iteration), finish() and the cancellation of the caller landing
+    anywhere still leave every message with the caller, back in its queue or dead-lettered - as without subscribers (where
+    the same grid is part of C03).  Oracle only."""
+    import repid.connections.redis.utils as ru
+    orig = ru.random.random
+    ru.random.random = lambda: 0.8
+    runs = []
+
+    async def main(loop):
+        loop.set_exception_handler(lambda l, c: None)
+        for sc, runner in [(x, one_run) for x in SCENARIOS if x["subs"]] + [(x, one_run_rabbit) for x in RABBIT_SCENARIOS if x["subs"]]:
+            for k in range(0, ctx.scale(40, 100), 2):
+                for c in (k - 3, k - 1, k, k + 1, k + 2):
+                    if c < 0:
+                        continue
+                    loop.max_iterations = loop.iteration + 200_000
+                    r = await runner(loop, sc, k, c)
+                    r.update({"scenario": sc, "k": k, "c": c})
+                    runs.append(r)
+    try:
+        run_virtual(main)
+    finally:
+        ru.random.random = orig
+    reported = False
+    for r in runs:
+        res.count("consume_subscribers_under_cancellation_runs")
+        final = r["snaps"][-1]
+        res.add_case(f"subs_handover:{r['scenario']['name']}:{r['k']}:{r['c']}:{final[3]}", True)
+        bad = {i: NAMES[cu] if cu != LOST else "in flight, held by nobody" for i, cu in zip(r["ids"], final[3])
+               if cu not in (Q, DEAD, CALLER) and not (cu == UND and r["late"])}
+        if (bad or r["err"]) and not reported:
+            reported = True
+            res.failures.append(Failure("subscribers_lose_message", f"consume() with suspending before_/after_consume subscribers, scenario "
+                                        f"{r['scenario']['name']}, finish() {r['k']} and cancellation of the caller {r['c']} loop iterations after "
+                                        f"the caller started: {bad or r['err']} (without subscribers the same grid leaves nothing behind)",
+                                        {"handover_run": {"scenario": r["scenario"], "k": r["k"], "c": r["c"]}}, None))
